@@ -1284,6 +1284,9 @@ func (g *Generator) generateServiceInterface(service *parser.Service) string {
 	}
 	if service.Comment != nil {
 		contents += g.generateDocString(service.Comment, tab)
+	} else if len(service.Methods) == 0 {
+		// a class needs a body: a service may have no methods
+		contents += tab + "pass\n"
 	}
 	contents += "\n"
 
